@@ -44,10 +44,14 @@ func (r *Reader) ReadEntry() (*Entry, error) {
 		// Read a record
 		record, err := r.readRecord()
 		if err != nil {
+			// Fragments collected so far belong to an entry that can no longer
+			// be completed; they must not be joined with records read later
+			pending := len(r.fragments)
+			r.fragments = r.fragments[:0]
 			if err == io.EOF {
 				// If we have fragments, this is unexpected EOF
-				if len(r.fragments) > 0 {
-					return nil, fmt.Errorf("unexpected EOF with %d fragments", len(r.fragments))
+				if pending > 0 {
+					return nil, fmt.Errorf("unexpected EOF with %d fragments", pending)
 				}
 				return nil, io.EOF
 			}
@@ -57,12 +61,14 @@ func (r *Reader) ReadEntry() (*Entry, error) {
 		// Process based on record type
 		switch record.recordType {
 		case RecordTypeFull:
-			// Single record, parse directly
+			// Single record, parse directly. Fragments still pending belong to
+			// an entry whose end is missing (its last record was damaged)
+			r.fragments = r.fragments[:0]
 			return r.parseEntryData(record.data)
 
 		case RecordTypeFirst:
-			// Start of a fragmented entry
-			r.fragments = append(r.fragments, record.data)
+			// Start of a fragmented entry; an unfinished one in front of it is dropped
+			r.fragments = append(r.fragments[:0], record.data)
 			r.currType = record.data[0] // Save the operation type
 
 		case RecordTypeMiddle:
